@@ -21,6 +21,16 @@ CHECKS = {
             "For 3 (quick) / 4 (thorough) histories of commits followed by a reorganisation (rollbacks + commits of a competing branch: transfers, contract calls with auto-receives and refunds, empty momentums, fork depth 1-5) delivered through InsertChain to a real node, the process is stopped before every leveldb write call-out of every ldbManager.Add / Pop and between operations (quick: database directory imaged inside the call-out; thorough: additionally a child process that os.Exit(137)s inside the call-out without closing, for every point). Every image must open as a node, hold exactly the pre- or post-state of the interrupted operation over the whole raw key space (ledger, redo, undo) and reach the crash-free final state after re-delivery.",
             "Process stops between leveldb writes only; goleveldb's own journal atomicity for a single Write is trusted; fsync/power loss out of scope.",
             "5/C08"),
+    "C06": ("model_checking",
+            "exhaustive enumeration of reorganisation scenarios on real nodes (fork depth x content x warmed-view subsets x pool contents x delivery shape x follow-up) with a differential oracle against a fresh node",
+            "Two real producers fork at depth 1-3 (thorough: also 29, 30, 31) with different content on both sides (transfers, contract calls, refunds, delegation changes, skipped slots). Node N adopts branch A and is then handed the longer branch B through InsertChain. Every combination of: subset of historical views requested before the switch (ids on the common prefix and on the abandoned branch), pool contents at switch time (block valid only on A, block valid on both), delivery shape (from fork point / overlapping / re-delivered singly) and follow-up (nothing / next momentum / gossip acknowledging a pre-fork momentum) is executed; N must equal a fresh node fed only the adopted branch in raw store (ledger+undo+redo), every historical view, absence of views for abandoned ids, pool acceptability, consensus statistics and election results. Additionally every single-momentum rollback must restore the exact raw store recorded before that momentum was added.",
+            "Election tick and epoch shrunk (3 slots / 2 ticks) so boundaries fall inside short chains; pool oracle is acceptability by the reference node.",
+            "5/C06"),
+    "C16": ("model_checking",
+            "exhaustive enumeration of delivered batch shapes against local chains of 3 lengths, reference decision by construction + differential oracle against a fresh node",
+            "Local chains of 3, 8 and 35 momentums; every batch of the stated family (extensions 1-3, known prefix + extension, duplicates, forks at depth 1,2,3,30,31 (thorough also 29) with shorter/equal/longer side chains, longer side chains with an invalid element at every position, gaps, alien chains, forged heights on a known parent, empty batch, each of 12 kinds of invalid element at every position of a 3-momentum extension followed by an overlapping valid re-delivery) is delivered through the real InsertChain. The node's final frontier and raw store must equal a fresh node fed the chain the reference decision prescribes, the returned index must be the position of the first failing momentum, nothing may panic.",
+            "Validity of batch elements is known by construction; InsertChain is the seam below fetcher/downloader.",
+            "5/C16"),
 }
 
 NOT_BUILT_REASON = "check not built yet in this round (work in progress; see DESIGN.md section 5 for the planned model-checking formulation)"
